@@ -104,6 +104,15 @@ def make_world(variant, seed=0):
     w["freq_kwargs"] = {"freq": f.copy(), "hs": 2.0, "fp": 0.1}
     w["dir_kwargs"] = {"dir": d.copy(), "dm": 90.0, "dspr": 30.0}
     w["da1d"] = xr.DataArray(own("da1d", (data[:, :, :, :].sum(axis=3) * 45.0)[0]), dims=["site", "freq"], coords={"site": np.array([1, 2, 3]), "freq": f.copy()}, name="efth")
+    # station dataset whose wind/depth are shared by all stations (no site dimension) and carry the caller's own attributes
+    w["ds_shared"] = xr.Dataset({"efth": (("time", "site", "freq", "dir"), own("shared_efth", data)),
+                                 "wspd": (("time",), own("shared_wspd", np.array([5.0, 9.0, 14.0]))),
+                                 "dpt": ((), 35.0)},
+                                coords={"time": times, "site": np.array([1, 2, 3]), "freq": f.copy(), "dir": d.copy()})
+    w["ds_shared"]["lon"] = (("site",), own("shared_lon", np.array([359.5, 0.5, 2.0])))
+    w["ds_shared"]["lat"] = (("site",), own("shared_lat", np.array([-1.0, 0.0, 1.0])))
+    w["ds_shared"]["wspd"].attrs = {"long_name": "wind at the mast", "units": "knots", "height": "23 m"}
+    w["ds_shared"]["dpt"].attrs = {"units": "fathom"}
     w["hsarr"] = xr.DataArray(own("hsarr", np.array([1.0, 2.0, 3.0])), dims=["site"], coords={"site": np.array([1, 2, 3])})
     w["_buffers"] = buffers
     return w
@@ -371,6 +380,12 @@ def build_ops(w0):
         sel_nearest(w["ds180"], w["lons360_arr"], w["lats_arr"], tolerance=5.0).compute()
 
     ops.append(("sel(array query, other convention)", f_sel180))
+
+    def f_sel_shared(w, tmp):
+        for m in ("bbox", "nearest", "idw"):
+            w["ds_shared"].spec.sel(w["lons"], w["lats"], method=m, tolerance=5.0).compute()
+
+    ops.append(("sel(dataset with shared wind/depth)", f_sel_shared))
     for nm, fn in (("regrid_spec", f_regrid), ("regrid_spec(lists)", f_regrid_list), ("smooth_spec", f_smooth), ("scaled", f_scaled),
                    ("construct_partition", f_construct), ("partition_and_reconstruct", f_reconstruct), ("unique_times", f_unique),
                    ("read_dataset(wavespectra)", f_read_dataset), ("core.select.*", f_sel_funcs)):
